@@ -127,6 +127,177 @@ def _prod(shape):
     return n
 
 
+def _c_steps(shape):
+    out, acc = [], 1
+    for d in reversed(shape):
+        out.insert(0, acc)
+        acc *= d
+    return out
+
+
+def _strides_of(a):
+    """Element strides of an array over its buffer, derived from its position list; None when the
+    positions are not a strided pattern (cannot happen for arrays NumPy itself would hand out)."""
+    shape, ix = a.shape, a._ix
+    if not ix:
+        return [0] * len(shape)
+    steps = _c_steps(shape)
+    base = ix[0]
+    strides = [(ix[steps[j]] - base) if shape[j] > 1 else 0 for j in range(len(shape))]
+    k = 0
+    for combo in itertools.product(*[range(d) for d in shape]):
+        p = base
+        for c_, st in zip(combo, strides):
+            p += c_ * st
+        if ix[k] != p:
+            return None
+        k += 1
+    return strides
+
+
+def _is_c_contig(a):
+    ix = a._ix
+    if len(ix) <= 1:
+        return True
+    b0 = ix[0]
+    for k in range(1, len(ix)):
+        if ix[k] != b0 + k:
+            return False
+    return True
+
+
+def _is_f_contig(a):
+    if a.size <= 1 or a.ndim <= 1:
+        return _is_c_contig(a)
+    st = _strides_of(a)
+    if st is None:
+        return False
+    acc = 1
+    for d, s_ in zip(a.shape, st):
+        if d > 1 and s_ != acc:
+            return False
+        acc *= d
+    return True
+
+
+def _nocopy_reshape(olddims, oldstrides, newdims):
+    """NumPy's _attempt_nocopy_reshape (C order) on element strides: new strides, or None when the
+    reshape needs a copy."""
+    old = [(d, s_) for d, s_ in zip(olddims, oldstrides) if d != 1]
+    od = [d for d, _ in old]
+    os_ = [s_ for _, s_ in old]
+    oldnd, newnd = len(od), len(newdims)
+    news = [0] * newnd
+    oi, oj, ni, nj = 0, 1, 0, 1
+    while ni < newnd and oi < oldnd:
+        np_, op = newdims[ni], od[oi]
+        while np_ != op:
+            if np_ < op:
+                np_ *= newdims[nj]
+                nj += 1
+            else:
+                op *= od[oj]
+                oj += 1
+        for ok in range(oi, oj - 1):
+            if os_[ok] != od[ok + 1] * os_[ok + 1]:
+                return None
+        news[nj - 1] = os_[oj - 1]
+        for nk in range(nj - 1, ni, -1):
+            news[nk - 1] = news[nk] * newdims[nk]
+        ni, oi = nj, oj
+        nj += 1
+        oj += 1
+    last = news[ni - 1] if ni >= 1 else 1
+    for nk in range(ni, newnd):
+        news[nk] = last
+    return news
+
+
+def _laid_out(values, shape, dtype, axis_order, owner='lib'):
+    """A fresh array holding ``values`` (logical C order) whose MEMORY order runs fastest along the
+    last axis of ``axis_order`` (axis_order == range(ndim): C layout; reversed: Fortran layout)."""
+    shape = tuple(shape)
+    n = len(shape)
+    if n < 2 or _prod(shape) <= 1 or list(axis_order) == list(range(n)):
+        return ndarray._new(values, shape, dtype, owner)
+    mem = {}
+    acc = 1
+    for ax in reversed(list(axis_order)):
+        mem[ax] = acc
+        acc *= shape[ax]
+    values = list(values)
+    data = [None] * len(values)
+    ix = []
+    k = 0
+    for combo in itertools.product(*[range(d) for d in shape]):
+        p = 0
+        for ax, c_ in enumerate(combo):
+            p += c_ * mem[ax]
+        data[p] = values[k]
+        ix.append(p)
+        k += 1
+    return ndarray(Buffer(data, owner), ix, shape, dtype)
+
+
+def _keep_order(a):
+    """Axis order NumPy's order='K' preserves: axes by decreasing stride."""
+    st = _strides_of(a)
+    n = a.ndim
+    if st is None or n < 2:
+        return list(range(n))
+    return sorted(range(n), key=lambda j: (-abs(st[j]), j))
+
+
+def _order_axes(a, order):
+    n = a.ndim
+    order = (order or 'C').upper()
+    if order == 'F' or (order == 'A' and _is_f_contig(a) and not _is_c_contig(a)):
+        return list(reversed(range(n)))
+    if order == 'K':
+        return _keep_order(a)
+    return list(range(n))
+
+
+class _Flags:
+    def __init__(self, a):
+        self._a = a
+
+    @property
+    def writeable(self):
+        return self._a._b.writeable and not self._a._ro
+
+    @writeable.setter
+    def writeable(self, v):
+        if self._a._ro and v:
+            self._a._ro = False
+        else:
+            self._a._b.writeable = builtins.bool(v)
+
+    owndata = True
+    aligned = True
+
+    @property
+    def c_contiguous(self):
+        return _is_c_contig(self._a)
+
+    @property
+    def f_contiguous(self):
+        return _is_f_contig(self._a)
+
+    contiguous = c_contiguous
+    fortran = f_contiguous
+
+    def __getitem__(self, k):
+        return getattr(self, {'C': 'c_contiguous', 'F': 'f_contiguous', 'W': 'writeable', 'O': 'owndata',
+                              'A': 'aligned'}.get(k, str(k).lower()))
+
+    def __setitem__(self, k, v):
+        if str(k).upper() in ('W', 'WRITEABLE'):
+            self.writeable = v
+        else:
+            raise ValueError("cannot set flag %r" % (k,))
+
+
 def _is_scalar(v):
     return isinstance(v, (builtins.int, builtins.float, builtins.bool, core.Fraction, Sym)) or v is None
 
@@ -176,14 +347,15 @@ def _coerce(v, dt):
 
 
 class ndarray:
-    __slots__ = ('_b', '_ix', 'shape', 'dtype')
+    __slots__ = ('_b', '_ix', 'shape', 'dtype', '_ro')
     __array_priority__ = 100
 
-    def __init__(self, buf, ix, shape, dtype):
+    def __init__(self, buf, ix, shape, dtype, ro=False):
         self._b = buf
         self._ix = ix
         self.shape = tuple(shape)
         self.dtype = dtype
+        self._ro = ro           # a read-only VIEW of a writable buffer (e.g. ndarray.diagonal())
 
     # ---- construction helpers
     @staticmethod
@@ -207,7 +379,7 @@ class ndarray:
 
     @property
     def flags(self):
-        return types.SimpleNamespace(writeable=self._b.writeable, owndata=True)
+        return _Flags(self)
 
     def setflags(self, write=None):
         if write is not None:
@@ -245,7 +417,7 @@ class ndarray:
         return self._flat()[0]
 
     def copy(self, order='C'):
-        return ndarray._new(self._flat(), self.shape, self.dtype)
+        return _laid_out(self._flat(), self.shape, self.dtype, _order_axes(self, order))
 
     def __copy__(self):
         return self.copy()
@@ -253,9 +425,11 @@ class ndarray:
     def __deepcopy__(self, memo):
         return self.copy()
 
-    def astype(self, dt, copy=True):
+    def astype(self, dt, order='K', casting='unsafe', subok=True, copy=True):
         dt = _as_dtype(dt)
-        return ndarray._new([_coerce(v, dt) for v in self._flat()], self.shape, dt)
+        if not copy and dt == self.dtype:
+            return self
+        return _laid_out([_coerce(v, dt) for v in self._flat()], self.shape, dt, _order_axes(self, order))
 
     def fill(self, v):
         self[...] = v
@@ -264,7 +438,16 @@ class ndarray:
         return ndarray._new(self._flat(), (self.size,), self.dtype)
 
     def ravel(self, order='C'):
-        return ndarray(self._b, list(self._ix), (self.size,), self.dtype)
+        # NumPy: a view only when the array is contiguous in the requested order, otherwise a copy
+        order = (order or 'C').upper()
+        if order in ('F',) or (order in ('A', 'K') and _is_f_contig(self) and not _is_c_contig(self)):
+            t = transpose(self)
+            if _is_c_contig(t):
+                return ndarray(self._b, list(t._ix), (self.size,), self.dtype, self._ro)
+            return ndarray._new(t._flat(), (self.size,), self.dtype)
+        if _is_c_contig(self):
+            return ndarray(self._b, list(self._ix), (self.size,), self.dtype, self._ro)
+        return ndarray._new(self._flat(), (self.size,), self.dtype)
 
     def reshape(self, *shape, order='C'):
         if len(shape) == 1 and isinstance(shape[0], (tuple, list)):
@@ -279,10 +462,24 @@ class ndarray:
             shape[shape.index(-1)] = self.size // known
         if _prod(shape) != self.size:
             raise ValueError("cannot reshape array of size %d into shape %s" % (self.size, tuple(shape)))
-        return ndarray(self._b, list(self._ix), tuple(shape), self.dtype)
+        if self.size <= 1 or _is_c_contig(self):
+            return ndarray(self._b, list(self._ix), tuple(shape), self.dtype, self._ro)
+        # not C-contiguous: a view when the strides allow it (NumPy's rule), otherwise a copy
+        st = _strides_of(self)
+        news = _nocopy_reshape(list(self.shape), st, list(shape)) if st is not None else None
+        if news is None:
+            return ndarray._new(self._flat(), tuple(shape), self.dtype)
+        base = self._ix[0]
+        ix = []
+        for combo in itertools.product(*[range(d) for d in shape]):
+            p = base
+            for c_, s_ in zip(combo, news):
+                p += c_ * s_
+            ix.append(p)
+        return ndarray(self._b, ix, tuple(shape), self.dtype, self._ro)
 
     def squeeze(self, axis=None):
-        return ndarray(self._b, list(self._ix), tuple(s for s in self.shape if s != 1), self.dtype)
+        return ndarray(self._b, list(self._ix), tuple(s for s in self.shape if s != 1), self.dtype, self._ro)
 
     def transpose(self, *axes):
         return transpose(self, axes if axes else None)
@@ -297,7 +494,7 @@ class ndarray:
             pos.append(self._ix[i * c + j])
             i += 1
             j += 1
-        return ndarray(self._b, pos, (len(pos),), self.dtype)
+        return ndarray(self._b, pos, (len(pos),), self.dtype, True)      # NumPy: a read-only view
 
     def conj(self):
         return self
@@ -505,18 +702,28 @@ class ndarray:
                 if builtins.bool(b):      # symbolic mask: forks per element
                     out.append(v)
             return ndarray._new(out, (len(out),), self.dtype)
+        if isinstance(key, ndarray) and key.dtype.kind in 'iu' and key.ndim > 1 and self.ndim >= 1:
+            # gather along the first axis with an N-d integer index array: result shape is
+            # key.shape + self.shape[1:], always a copy
+            inner = _prod(self.shape[1:])
+            flat = self._flat()
+            vals = []
+            for j in key._flat():
+                r = _norm_index(j, self.shape[0], 0)
+                vals.extend(flat[r * inner:(r + 1) * inner])
+            return ndarray._new(vals, tuple(key.shape) + tuple(self.shape[1:]), self.dtype)
         positions, shape, is_view = self._resolve(key)
         if not shape and is_view and not _has_newaxis(key):
             return self._b.data[self._ix[positions[0]]]
         ix = [self._ix[p] for p in positions]
         if is_view:
-            return ndarray(self._b, ix, shape, self.dtype)
+            return ndarray(self._b, ix, shape, self.dtype, self._ro)
         d = self._b.data
         return ndarray._new([d[i] for i in ix], shape, self.dtype)
 
     def _write(self, pos, v):
         b = self._b
-        if not b.writeable:
+        if not b.writeable or self._ro:
             raise ValueError("assignment destination is read-only")
         if b.owner != 'lib':
             WRITE_LOG.append((b.owner, pos))
@@ -796,6 +1003,10 @@ def _broadcast_to(a, shape):
     return out
 
 
+def _f_only(a):
+    return a.size > 1 and not _is_c_contig(a) and _is_f_contig(a)
+
+
 def _elementwise(a, b, fn, rdtype=None):
     if isinstance(a, (list, tuple)):
         a = array(a)
@@ -811,17 +1022,28 @@ def _elementwise(a, b, fn, rdtype=None):
         a = SymReal(a.e, 'np.float64')
     if isinstance(a, ndarray) and isinstance(b, ndarray):
         if a.shape == b.shape:
-            return ndarray._new([fn(x, y) for x, y in zip(a._flat(), b._flat())], a.shape, dt)
+            vals = [fn(x, y) for x, y in zip(a._flat(), b._flat())]
+            if a.ndim > 1 and a.size > 1 and not (_is_c_contig(a) or _is_c_contig(b)):
+                ka, kb = _keep_order(a), _keep_order(b)
+                if ka == kb:
+                    return _laid_out(vals, a.shape, dt, ka)                       # ufunc output order 'K'
+            return ndarray._new(vals, a.shape, dt)
         shape = _bshape(a.shape, b.shape)
         return ndarray._new([fn(x, y) for x, y in zip(_broadcast_to(a, shape), _broadcast_to(b, shape))],
                             shape, dt)
     if isinstance(a, ndarray):
         if not _is_scalar(b):
             return NotImplemented
-        return ndarray._new([fn(x, b) for x in a._flat()], a.shape, dt)
+        vals = [fn(x, b) for x in a._flat()]
+        if a.ndim > 1 and a.size > 1 and not _is_c_contig(a):
+            return _laid_out(vals, a.shape, dt, _keep_order(a))
+        return ndarray._new(vals, a.shape, dt)
     if not _is_scalar(a):
         return NotImplemented
-    return ndarray._new([fn(a, y) for y in b._flat()], b.shape, dt)
+    vals = [fn(a, y) for y in b._flat()]
+    if b.ndim > 1 and b.size > 1 and not _is_c_contig(b):
+        return _laid_out(vals, b.shape, dt, _keep_order(b))
+    return ndarray._new(vals, b.shape, dt)
 
 
 # ---- constructors -------------------------------------------------------------
@@ -838,6 +1060,8 @@ def zeros(shape, dtype=None, order='C'):
     if builtins.any(s < 0 for s in shape):
         raise ValueError("negative dimensions are not allowed")
     z = 0.0 if dt.kind == 'f' else (False if dt.kind == 'b' else 0)
+    if str(order).upper() == 'F':
+        return _laid_out([z] * _prod(shape), shape, dt, list(reversed(range(len(shape)))))
     return ndarray._new([z] * _prod(shape), shape, dt)
 
 
@@ -847,11 +1071,13 @@ def ones(shape, dtype=None, order='C'):
     if builtins.any(s < 0 for s in shape):
         raise ValueError("negative dimensions are not allowed")
     o = 1.0 if dt.kind == 'f' else (True if dt.kind == 'b' else 1)
+    if str(order).upper() == 'F':
+        return _laid_out([o] * _prod(shape), shape, dt, list(reversed(range(len(shape)))))
     return ndarray._new([o] * _prod(shape), shape, dt)
 
 
 def empty(shape, dtype=None, order='C'):
-    return zeros(shape, dtype)
+    return zeros(shape, dtype, order)
 
 
 def full(shape, fill_value, dtype=None):
@@ -860,9 +1086,10 @@ def full(shape, fill_value, dtype=None):
     return ndarray._new([_coerce(fill_value, dt)] * _prod(shape), shape, dt)
 
 
-def zeros_like(a, dtype=None):
+def zeros_like(a, dtype=None, order='K'):
     a = asarray(a)
-    return zeros(a.shape, dtype or a.dtype)
+    z = zeros(a.shape, dtype or a.dtype)
+    return _laid_out(z._flat(), z.shape, z.dtype, _order_axes(a, order))
 
 
 def ones_like(a, dtype=None):
@@ -916,9 +1143,11 @@ def _nested(obj):
     return [obj], ()
 
 
-def array(obj, dtype=None, copy=True, ndmin=0):
+def array(obj, dtype=None, copy=True, order='K', ndmin=0):
     if isinstance(obj, ndarray) and dtype is None:
-        r = obj.copy()
+        r = obj.copy(order=order)
+    elif isinstance(obj, ndarray):
+        r = obj.astype(dtype, order=order)
     else:
         vals, shape = _nested(obj)
         if dtype is None:
@@ -941,18 +1170,31 @@ def array(obj, dtype=None, copy=True, ndmin=0):
     return r
 
 
-def asarray(obj, dtype=None):
+def asarray(obj, dtype=None, order=None):
     if isinstance(obj, ndarray) and (dtype is None or _as_dtype(dtype) == obj.dtype):
+        o = (order or 'K').upper()
+        if o == 'C' and not _is_c_contig(obj):
+            return obj.copy('C')
+        if o == 'F' and not _is_f_contig(obj):
+            return obj.copy('F')
         return obj
-    return array(obj, dtype)
+    return array(obj, dtype, order=order or 'K')
 
 
 asanyarray = asarray
-ascontiguousarray = asarray
+
+
+def ascontiguousarray(a, dtype=None):
+    return asarray(a, dtype, order='C')
+
+
+def asfortranarray(a, dtype=None):
+    return asarray(a, dtype, order='F')
 
 
 def copy(a, order='K'):
-    return array(a)
+    a = asarray(a) if isinstance(a, ndarray) else array(a)
+    return a.copy(order=order)
 
 
 # ---- shape manipulation -------------------------------------------------------
@@ -960,7 +1202,7 @@ def copy(a, order='K'):
 def transpose(a, axes=None):
     a = asarray(a)
     if a.ndim < 2:
-        return ndarray(a._b, list(a._ix), a.shape, a.dtype)
+        return ndarray(a._b, list(a._ix), a.shape, a.dtype, a._ro)
     if axes is None:
         axes = tuple(reversed(range(a.ndim)))
     axes = tuple(axes)
@@ -976,7 +1218,7 @@ def transpose(a, axes=None):
         for j, ax in zip(combo, axes):
             p += j * strides[ax]
         ix.append(a._ix[p])
-    return ndarray(a._b, ix, shape, a.dtype)
+    return ndarray(a._b, ix, shape, a.dtype, a._ro)
 
 
 def reshape(a, shape):
@@ -1092,8 +1334,15 @@ def diag_indices_from(a):
     return diag_indices(asarray(a).shape[0], asarray(a).ndim)
 
 
-def fill_diagonal(a, val):
+def fill_diagonal(a, val, wrap=False):
     n = builtins.min(a.shape)
+    if isinstance(val, (ndarray, list, tuple)):
+        vals = asarray(val)._flat()
+        if not vals:
+            raise ValueError("All input arrays must have the same shape")  # pragma: no cover
+        for i in range(n):
+            a[i, i] = vals[i % len(vals)]        # NumPy repeats the values as needed
+        return
     for i in range(n):
         a[i, i] = val
 
@@ -1391,8 +1640,7 @@ def isnan(a):
 
 
 def require(a, dtype=None, requirements=None):
-    """np.require: the SAME array when every requirement is already met (shim arrays are always
-    C-contiguous and aligned), a copy otherwise."""
+    """np.require: the SAME array when every requirement is already met, a copy otherwise."""
     reqs = set()
     for r in (requirements or []):
         reqs.add({'C_CONTIGUOUS': 'C', 'CONTIGUOUS': 'C', 'F_CONTIGUOUS': 'F', 'FORTRAN': 'F', 'ALIGNED': 'A',
@@ -1400,10 +1648,12 @@ def require(a, dtype=None, requirements=None):
     if not isinstance(a, ndarray):
         return array(a, dtype)
     dt = _as_dtype(dtype, a.dtype)
-    need_copy = dt != a.dtype or ('W' in reqs and not a._b.writeable) or ('F' in reqs and a.ndim > 1) or \
-        ('O' in reqs and len(a._ix) != len(a._b.data))
+    need_copy = dt != a.dtype or ('W' in reqs and not a._b.writeable) or ('F' in reqs and not _is_f_contig(a)) or \
+        ('C' in reqs and not _is_c_contig(a)) or ('O' in reqs and len(a._ix) != len(a._b.data))
     if need_copy:
-        out = ndarray._new([_coerce(v, dt) for v in a._flat()], a.shape, dt)
+        out = _laid_out([_coerce(v, dt) for v in a._flat()], a.shape, dt,
+                        list(reversed(range(a.ndim))) if 'F' in reqs else
+                        (list(range(a.ndim)) if 'C' in reqs else _keep_order(a)))
         return out
     return a
 
@@ -1796,8 +2046,11 @@ class _Linalg(types.ModuleType):
     def cholesky(self, a):
         return self._call('cholesky', a)
 
-    def norm(self, x, ord=None, axis=None):
+    def norm(self, x, ord=None, axis=None, keepdims=False):
         if ord is not None or axis is not None:
+            fn = self._impl.get('norm')
+            if fn is not None and getattr(fn, 'takes_ord', False):
+                return fn(x, ord=ord, axis=axis)        # a contract stub that knows the other norms
             return self._call('norm_ord', x, ord, axis)
         return self._call('norm', x)
 
